@@ -4,7 +4,7 @@ import re
 from tools.vlib import *
 
 PID = "C14"
-READY = False
+READY = True
 MANIFEST = {
     "level_text": "PARTIAL. Lean 4 theorems about a model of SessionManager's framing (send: size guard, nonce, 32-bit big-endian length, "
                   "ChaCha20 call; receive_loop: the three recv_all calls, the length check before the body buffer is allocated, decrypt, "
@@ -28,7 +28,7 @@ MANIFEST = {
                   "partial writes without a per-session lock: a scheduling matter, see C36; the harness sends from one thread per "
                   "direction); nonce freshness comes from std::random_device (theorems hold for every nonce; the harness only tests "
                   "pairwise distinctness of all nonces captured in a run). Trusted: Lean kernel; hand transcription of send / "
-                  "receive_loop into Lean (checked by the differential run; 6 hand-made mutants caught); ChaCha20::apply is taken at "
+                  "receive_loop into Lean (checked by the differential run; 7 hand-made mutants caught); ChaCha20::apply is taken at "
                   "its RFC 8439 specification (proved equal by C09; here compared on every captured frame); the harness, its marker-based "
                   "quiescence (a marker frame sent down the same session) and canonicalisation (payloads above 32 bytes as length + "
                   "sha256 prefix). Session replacement, teardown, and send() on a missing/stopped session are outside the property.",
@@ -440,7 +440,7 @@ def spec() -> Spec:
         extract=extract,
         nontrivial=nontrivial,
         post=post,
-        budget={"quick": 100, "thorough": 2000},
+        budget={"quick": 140, "thorough": 2000},
         search_budget={"quick": 400, "thorough": 5000},
         per_case_timeout=120.0,
         batch=400,
